@@ -17,7 +17,7 @@ RULE = ("fragment streams of real messages (2..4 fragments exhaustively, 5..7 ra
         "twice. Non-trivial: >=1 enqueue accepted; distinct = distinct (fragment counts, senders, "
         "id relation, delivery pattern, dequeue points).")
 REQUIRED = {"dequeued_is_sent_message": 2000, "at_most_once": 2000, "histories": 5000}
-BUDGET = {"quick": 150, "thorough": 500}
+BUDGET = {"quick": 480, "thorough": 900}
 
 ME = 0o2
 
